@@ -8,7 +8,7 @@
 From Coq Require Import List NArith Bool.
 From SV Require Import Text.Str Text.Prog Text.Tokenizer.
 From SV Require Import KV.KvBase KV.KvLex KV.KvParse KV.KvSer KV.KvSym KV.KvParseProofs KV.KvRoundtrip KV.KvStrip
-  KV.KvRefine KV.KvDelivery KV.KvExport KV.KvFlags.
+  KV.KvRefine KV.KvDelivery KV.KvExport KV.KvFlags KV.KvLoop KV.KvLoopRef KV.KvLoopProofs KV.KvLoopEquiv KV.KvLoopRoundtrip.
 Import ListNotations.
 Open Scope N_scope.
 
@@ -206,3 +206,71 @@ Theorem kv_roundtrip_any_flags : forall C E P, cfg_ok C = true -> esc_ok E = tru
   forall casefold flags defaults o d, ws_opts o = true -> doc_names_ok d = true ->
   parse_kv P E (read_flag casefold flags defaults) (serialise_doc C E o d) = POk d.
 Proof. exact roundtrip_any_flags. Qed.
+
+(** * The token loop of Keyvalues.parse as a decision tree regenerated from the source
+    [T], [F]: the trees that translate/c01_kvloop.py reads off the body of the token loop and off the checks after
+    it (symbolic execution path by path: control flow normalised, tests turned into atoms of the state at the start
+    of a pass, the heap operations of a path summarised into one operation on the block stack).  [loop_ok T F P]
+    (both trees [tree_equiv] to the reference trees -- a decision procedure proved sound below, insensitive to the
+    order of independent tests --, both emptiness guards present) is discharged by the check.  For such
+    trees the parser [parse_kv_tree] IS the hand-written [parse_kv_opts], on every text, under every option vector,
+    flag predicate and tokenizer ending -- so the hand model of the token loop is tied to the source by a proof over
+    all inputs plus the translator, not only by differential runs. *)
+Theorem parse_loop_tree_is_model : forall T F P, loop_ok T F P = true ->
+  forall O E flag_on text, parse_kv_tree T F P O E flag_on text = parse_kv_opts P O E flag_on text.
+Proof. exact loop_ok_parse. Qed.
+
+(** Soundness of the symbolic equivalence check: equivalent trees make the same pass through the loop body from
+    every state on every token list (hence the same loop, [ploop_equiv]). *)
+Theorem parse_loop_tree_equiv_sound : forall P O flag_on fin t1 t2, tree_equiv t1 t2 = true ->
+  forall n s ts, pstep P O flag_on fin t1 n s ts = pstep P O flag_on fin t2 n s ts.
+Proof. exact tree_equiv_sound. Qed.
+
+(** The reference tree run by [ploop] is the hand-written [prun]: from every state, on every token list. *)
+Theorem parse_loop_reference_tree_is_token_loop : forall P O flag_on fin,
+  p_replace_guard P = true -> p_single_block_guard P = true ->
+  forall n s ts, (length ts < n)%nat ->
+  ploop P O flag_on fin n ref_ptree ref_pfinal s ts = prun P O flag_on fin (m_stk s) (m_cur s) (m_b s) (m_cfr s) ts.
+Proof. exact ploop_ref_is_prun. Qed.
+
+(** The same at the level of token lists for syntactically equal trees. *)
+Theorem parse_loop_tree_is_token_loop : forall T F P, ptree_eqb T ref_ptree = true -> ptree_eqb F ref_pfinal = true ->
+  p_replace_guard P = true -> p_single_block_guard P = true ->
+  forall O flag_on tf, parse_toks_tree T F P O flag_on tf = parse_toks_opts P O flag_on tf.
+Proof. exact parse_tree_is_prun. Qed.
+
+(** The round trip for the parser given by the regenerated loop (all parse options; single_block separately). *)
+Theorem kv_roundtrip_source_loop : forall C E P T F, cfg_ok C = true -> esc_ok E = true -> pcfg_ok P = true ->
+  loop_ok T F P = true ->
+  forall flag_on O o d, po_single_block O = false -> ws_opts o = true ->
+  po_newline_keys O || doc_names_ok d = true -> po_newline_values O || doc_values_ok d = true ->
+  parse_kv_tree T F P O E flag_on (serialise_doc C E o d) = POk d.
+Proof. exact tree_roundtrip_doc. Qed.
+
+Theorem kv_roundtrip_source_loop_node : forall C E P T F, cfg_ok C = true -> esc_ok E = true -> pcfg_ok P = true ->
+  loop_ok T F P = true ->
+  forall flag_on O o k, po_single_block O = false -> ws_opts o = true ->
+  po_newline_keys O || names_ok k = true -> po_newline_values O || values_ok k = true ->
+  parse_kv_tree T F P O E flag_on (serialise_node C E o k) = POk [k].
+Proof. exact tree_roundtrip_node. Qed.
+
+Theorem kv_roundtrip_source_loop_single_block : forall C E P T F, cfg_ok C = true -> esc_ok E = true -> pcfg_ok P = true ->
+  loop_ok T F P = true ->
+  forall flag_on O o k, po_single_block O = true -> ws_opts o = true ->
+  po_newline_keys O || names_ok k = true -> po_newline_values O || values_ok k = true ->
+  parse_kv_tree T F P O E flag_on (serialise_node C E o k) = PNode k.
+Proof. exact tree_roundtrip_single_block. Qed.
+
+Theorem kv_loop_hypotheses_satisfiable : loop_ok ref_ptree ref_pfinal ref_pcfg = true.
+Proof. exact ref_loop_ok. Qed.
+
+(** A loop whose brace-open path does not push the opened block is rejected, and does lose the nesting. *)
+Theorem kv_loop_forgotten_push_refuted :
+  tree_equiv (forget_push ref_ptree) ref_ptree = false /\
+  parse_toks_tree (forget_push ref_ptree) ref_pfinal ref_pcfg default_popts (fun _ => false)
+    ([TStr [97]; TNL; TBO; TNL; TStr [98]; TStr [99]; TNL; TBC; TNL], None) = PErr ETooManyClose.
+Proof. exact (conj forget_push_rejected forget_push_refuted). Qed.
+
+(** The equivalence check is semantic, not textual: two differently ordered trees are accepted. *)
+Theorem kv_loop_equiv_not_syntactic : ptree_eqb swap_demo_a swap_demo_b = false /\ tree_equiv swap_demo_a swap_demo_b = true.
+Proof. exact tree_equiv_not_syntactic. Qed.
